@@ -5,5 +5,5 @@ name, prop, change, needs, checks = sys.argv[1:6]
 ver = open(f'/verif/seeded/{name}/verify.txt').read().strip()
 json.dump({"breaks_property": prop, "change": change, "needs_to_manifest": needs,
   "confirmed": "tools/verify-seeded.sh in the sub-agent's scratch worktree (builds with and without verif-hooks; existing suite; seeded_demo.rs fails with the patch and passes without it): " + ver,
-  "checks_run": checks, "produced_by": "independent sub-agent given only the property text and a scratch worktree (batch b)"},
+  "checks_run": checks, "produced_by": "independent sub-agent given only the property text and a scratch worktree (batch e)"},
   open(f'/verif/seeded/{name}/meta.json','w'), indent=1)
